@@ -96,6 +96,8 @@ static void run_all(const char *pl, gbuf_t *A, gbuf_t *L, gbuf_t *D, gbuf_t *I, 
     GUARD("I:is_ipv6", pl, *I, obs_sum += is_ipv6(I->s, I->s + I->n));
 }
 
+static unsigned n_alarm = 120;
+
 int main(void)
 {
     char *line = NULL; size_t cap = 0; ssize_t r;
@@ -107,11 +109,14 @@ int main(void)
     sa.sa_sigaction = on_fault; sa.sa_flags = SA_SIGINFO | SA_NODEFER;
     sigaction(SIGSEGV, &sa, NULL); sigaction(SIGBUS, &sa, NULL);
     signal(SIGABRT, drv_on_signal);
+    signal(SIGALRM, drv_on_signal);
     while ((r = getline(&line, &cap, stdin)) > 0) {
         size_t n; char *s; long at = -1; size_t j; int head;
         if (line[r - 1] == '\n') line[r - 1] = 0;
         if (line[0] == 'Q') break;
         g_case++;
+        /* this build is uninstrumented: a smashed stack can turn into an endless loop; one case takes milliseconds (9 MiB: seconds) */
+        alarm(n_alarm);
         s = hexdup(line, &n);
         for (j = 0; j < n; j++) if (s[j] == '@') at = (long)j;
         nfaults = 0;
